@@ -17,7 +17,12 @@ header, into a local before the loop, by a conditional expression or by a helper
 if at some attempt every outcome class ends it (the last-attempt test alone enforces the bound): that attempt is searched among the first _SEARCH ones on the same evaluated iterations.
 A `while` loop that keeps its own count is evaluated by REPLAYING the earlier iterations (with outcomes that are retried) before the one that is judged, so the counter - wherever it is
 advanced, whichever way it counts - is part of the evaluation. (Not decided for these two shapes: a cap beyond the first _SEARCH attempts.) O16.6 follows super().params() and gives a verdict
-"does not forward" only when every key of the returned mapping is visible."""
+"does not forward" only when every key of the returned mapping is visible.
+
+Strengthening round 5 (O16.7): "as configured" includes what applies when the task configures NOTHING. The documentation states the defaults (section **Retries**) and, in an operation's own
+section, where that operation departs from them (get-async-search waits until success unless retry-until-success is set to false). What applies at run time is decided by how the wrapper is
+BUILT where the operation is registered: the constructor arguments of the registration (through an alias / functools.partial / a factory function / the super().__init__ chain of a subclass)
+are bound to the constructor's parameters and the wrapper's code is evaluated, with these settings, on a task without retry parameters."""
 from __future__ import annotations
 
 import ast
@@ -868,8 +873,9 @@ def run(chk):
         "(12 exception classes placed in the real, parsed library hierarchy, and 5 kinds of return value) at a non-last and at the last attempt under each combination of "
         "(retry-on-timeout, retry-on-error); the handler that Python would select is located through the hierarchy; the outcome (next attempt after one awaited sleep of the configured period / "
         "the attempt's own exception / the attempt's own result) must equal the documented classification. Also the attempt bound (retries + 1 iterations, unbounded with retry-on-error forced "
-        "under retry-until-success; the attempt numbers are the VALUE the loop runs over - a range, an unbounded counter, a `while` loop replayed from its start), the parameter defaults, that the caller's parameter dict and the shared wrapper are left alone, which operations are wrapped and that their parameter "
-        "sources hand the retry settings on."
+        "under retry-until-success; the attempt numbers are the VALUE the loop runs over - a range, an unbounded counter, a `while` loop replayed from its start), the parameter defaults, that the caller's parameter dict and the shared wrapper are left alone, which operations are wrapped, that their parameter "
+        "sources hand the retry settings on, and that each registered wrapper - built as its registration builds it - gives a task without retry parameters the documented defaults "
+        "(retry-until-success on only where the operation's documentation section says it waits by default)."
     )
     chk.not_decided = ("timing of sleeps, behaviour of the delegate, operations wrapped by plugins; for a loop without a visible end of the attempt numbers (unbounded counter, `while`): "
                        f"a cap on the attempts beyond the first {_SEARCH}.")
@@ -1146,7 +1152,7 @@ def run(chk):
     flag = None
     try:
         for attr, dv in settings.items():
-            if dv is False and world({"retries": 0}, {attr: True}).unbounded:
+            if isinstance(dv, bool) and world({"retries": 0}, {attr: True}).unbounded and not world({"retries": 0}, {attr: False}).unbounded:
                 flag = attr
     except CannotEval as e:
         raise AnchorMissing(f"Retry.__call__ up to the attempt loop is not evaluable on representative parameters: {e}")
@@ -1432,6 +1438,8 @@ def run(chk):
         if not isinstance(e, ast.Call) or depth > 3:
             return None
         f = e.func
+        if isinstance(f, ast.Call) and last_attr(f.func) == "partial" and f.args and isinstance(f.args[0], (ast.Name, ast.Attribute)):
+            f = f.args[0]  # (the alias already substituted by its definition: functools.partial(Retry, ...)(<runner>))
         if isinstance(f, ast.Name) and f.id not in tab.by_name and f.id not in reg_funcs:
             d = reg_defs.get(f.id) or rn.module_constant(f.id)  # an alias: retryable = Retry / functools.partial(Retry, ...)
             if isinstance(d, ast.Call) and last_attr(d.func) == "partial" and d.args:
@@ -1599,6 +1607,243 @@ def run(chk):
         chk.ob("O16.6", f"`{op}`: retry settings reach Retry through {cname}", ok_, ptab.method(ptab.get(cname), "params") or ptab.get(cname).node, why,
                key=f"esrally/track/params.py:{cname}.params:forwards-task-params:{op}")
 
+    # ---- O16.7 the defaults that apply to a registered operation are the documented ones ----------------------------------------------------------------
+    # "exactly as configured" includes what is configured when the task says NOTHING: the documentation states one set of defaults for all retryable operations (section **Retries**) and,
+    # in the section of an operation, where that operation departs from it (it waits until success by default). What applies at run time is decided by how the operation's wrapper is BUILT
+    # where it is registered (its constructor settings) and by the wrapper's own code: both are evaluated end to end - the constructor arguments of the registration (through an alias /
+    # functools.partial / a factory function) bound to the constructor's parameters, then the wrapper's code on a task without retry parameters.
+    chk.rule("O16.7", "for every operation registered through the retry wrapper, a task that sets no retry parameter gets the documented defaults: retries 0 (one attempt), retry-on-timeout on, "
+             "retry-on-error off, retry-wait-period 0.5 - and retry-until-success off UNLESS the operation's own documentation section says it waits until success by default, then on "
+             "(without bound, an unsuccessful result goes on to the next attempt after the wait period; switched off again by retry-until-success: false). Evaluated on the wrapper as the "
+             "registration builds it (constructor settings bound to the constructor's parameters)", 30,
+             "an operation silently polls once instead of until success (or for ever instead of once) although the track configures nothing")
+
+    def doc_value(text):
+        t = text.strip("`").lower()
+        if t in ("true", "false"):
+            return t == "true"
+        try:
+            return int(t)
+        except ValueError:
+            return float(t)
+
+    doc_defaults = {}
+    for l in doc:
+        m = re.match(r"\s*\* ``(retr[\w-]+)`` \(optional, defaults? to (``[\w.]+``|[\w.]+)\)", l)
+        if m and m.group(1) in RETRY_KEYS and m.group(1) not in doc_defaults:
+            try:
+                doc_defaults[m.group(1)] = doc_value(m.group(2))
+            except ValueError:
+                pass
+    if set(doc_defaults) != RETRY_KEYS:
+        raise AnchorMissing(f"docs/track.rst: documented default of {sorted(RETRY_KEYS - set(doc_defaults))} (`* ``<key>`` (optional, defaults to <value>)`)")
+
+    def section_of(op):
+        at = [i for i, t in secs if t == op]
+        if len(at) != 1:
+            return None
+        end = min([i for i, _ in secs if i > at[0]] + [len(doc)])
+        return doc[at[0]:end]
+
+    def documented_until_success(op):
+        """True / False: what the documentation says about retry-until-success for a task of this operation that does not set it (None: the section talks about the setting in prose
+        that is not recognised). Only prose counts (``retry-until-success`` in reST literal quotes), not the JSON examples."""
+        sec = section_of(op)
+        prose = " ".join(l.strip() for l in (sec or []))
+        if "``retry-until-success``" not in prose:
+            return doc_defaults["retry-until-success"]
+        m = re.search(r"``retry-until-success`` \(optional, defaults? to ``(true|false)``\)", prose)
+        if m:
+            return m.group(1) == "true"
+        for sentence in re.split(r"(?<=[.!?])\s+", prose):
+            if "``retry-until-success``" in sentence and re.search(r"``retry-until-success``\s+to\s+``false``", sentence) and re.search(r"\b(disable|turn\w* off|switch\w* off|opt out)\b", sentence):
+                return True  # it has to be switched off explicitly: it is on by default
+        return None
+
+    def ctor_call(e, depth=0):
+        """the constructor call of the retry wrapper that a registered runner expression amounts to (through an alias of the class, functools.partial, a factory function with its parameters
+        substituted) and the class it builds; Unrecognised for any other shape"""
+        if not isinstance(e, ast.Call) or depth > 3:
+            raise Unrecognised(f"`{short(e, 50)}` is not a constructor call")
+        f, pre_args, pre_kws = e.func, [], []
+        if isinstance(f, ast.Call) and last_attr(f.func) == "partial" and f.args and isinstance(f.args[0], (ast.Name, ast.Attribute)):
+            pre_args, pre_kws, f = list(f.args[1:]), list(f.keywords), f.args[0]
+        if isinstance(f, ast.Name) and f.id not in tab.by_name and f.id not in reg_funcs:
+            d = reg_defs.get(f.id) or rn.module_constant(f.id)
+            if isinstance(d, ast.Call) and last_attr(d.func) == "partial" and d.args:
+                pre_args, pre_kws, d = list(d.args[1:]), list(d.keywords), d.args[0]
+            if isinstance(d, (ast.Name, ast.Attribute)):
+                f = d
+        name = last_attr(f) if isinstance(f, (ast.Name, ast.Attribute)) else None
+        if isinstance(f, ast.Name) and name in reg_funcs:
+            fn = reg_funcs[name]
+            binds = source.bind_args(e, fn, skip_self=False)
+            a_ = fn.args
+            allpos = a_.posonlyargs + a_.args
+            for p, d in list(zip(allpos[len(allpos) - len(a_.defaults):], a_.defaults)) + [(p, d) for p, d in zip(a_.kwonlyargs, a_.kw_defaults) if d is not None]:
+                binds.setdefault(p.arg, d)
+            rets = [st for st in walk_body(fn) if isinstance(st, ast.Return)]
+            if len(rets) != 1 or rets[0].value is None or any(isinstance(x, ast.Starred) for x in e.args) or any(k.arg is None for k in e.keywords):
+                raise Unrecognised(f"factory function {name}() does not return one constructor call")
+            return ctor_call(source.inline_node(rets[0].value, {**{k: v_ for k, v_ in local_defs(fn).items() if k not in params_of(fn)}, **binds}), depth + 1)
+        kls = next((k_ for k_ in (tab.by_name.get(name, []) if name else []) if any(c.node is R for c in tab.mro(k_))), None)
+        if kls is None:
+            raise Unrecognised(f"`{short(e, 50)}` does not build the retry wrapper")
+        built = ast.Call(func=f, args=pre_args + list(e.args), keywords=pre_kws + list(e.keywords))
+        if any(isinstance(x, ast.Starred) for x in built.args) or any(k.arg is None for k in built.keywords):
+            raise Unrecognised(f"`{short(e, 50)}`: star arguments")
+        return kls, built
+
+    def ctor_settings(e):
+        """attr -> value of the constructor settings (everything a constructor of the wrapper's classes stores from a parameter, except the delegate) with which the registered wrapper is
+        built; the constructor of a subclass is followed through its one `super().__init__(...)` call (arguments substituted)"""
+        kls, built = ctor_call(e)
+        mro = tab.mro(kls)
+        out, at = {}, 0
+        # (only settings that some method of the wrapper reads matter: what a base class keeps for its own purposes is not part of the retry configuration)
+        read = {n.attr for c_ in mro for nm, m in c_.methods.items() if nm != "__init__" for n in walk_body(m)
+                if isinstance(n, ast.Attribute) and isinstance(n.ctx, ast.Load) and isinstance(n.value, ast.Name) and n.value.id == self_name(m)}
+        wanted = {attr for attr in ctor_attr if attr not in called and attr in read}
+        for _ in range(6):
+            at = next((i for i in range(at, len(mro)) if "__init__" in mro[i].methods), None)
+            if at is None:
+                raise Unrecognised(f"no constructor of {kls.name} stores {sorted(wanted - set(out))[0]}")
+            c, init = mro[at], mro[at].methods["__init__"]
+            a_ = init.args
+            if a_.kwarg or a_.vararg:
+                raise Unrecognised(f"{c.name}.__init__ takes star arguments")
+            names = set(params_of(init)[1:]) | {x.arg for x in a_.kwonlyargs}
+            if len(built.args) > len(params_of(init)) - 1 or any(k.arg not in names for k in built.keywords):
+                raise Unrecognised(f"`{short(e, 50)}`: an argument that is no parameter of {c.name}.__init__")
+            bound = source.bind_args(built, init)
+            allpos = a_.posonlyargs + a_.args
+            for p_, d in list(zip(allpos[len(allpos) - len(a_.defaults):], a_.defaults)) + [(p_, d) for p_, d in zip(a_.kwonlyargs, a_.kw_defaults) if d is not None]:
+                bound.setdefault(p_.arg, d)
+            for attr in sorted(wanted - set(out)):
+                oc, p_, _ = ctor_attr[attr]
+                if oc is c:
+                    if p_ not in bound:
+                        raise Unrecognised(f"`{short(e, 50)}`: no value for `{p_}`")
+                    try:
+                        out[attr] = mev(bound[p_], {})
+                    except CannotEval:
+                        raise Unrecognised(f"`{short(e, 50)}`: the value of `{p_}` ({short(bound[p_], 30)}) is not a constant")
+            if wanted <= set(out):
+                return out
+            # the remaining settings are stored by a constructor further up: through the one super().__init__(...) call of this one
+            ups = [n for n in walk_body(init) if isinstance(n, ast.Call) and isinstance(n.func, ast.Attribute) and n.func.attr == "__init__"]
+            if len(ups) != 1 or source.parent(ups[0]) not in init.body or any(isinstance(x, ast.Starred) for x in ups[0].args) or any(k.arg is None for k in ups[0].keywords):
+                raise Unrecognised(f"{c.name}.__init__ does not hand on to the next constructor by one plain super().__init__(...) statement")
+            up, recv = ups[0], ups[0].func.value
+            sub = {**{k: v_ for k, v_ in local_defs(init).items() if k not in params_of(init)}, **bound}
+            args = [source.inline_node(x, sub) for x in up.args]
+            if isinstance(recv, ast.Call) and isinstance(recv.func, ast.Name) and recv.func.id == "super" and not recv.args:
+                at += 1
+            elif isinstance(recv, ast.Name) and any(k_.name == recv.id for k_ in mro[at + 1:]) and args:
+                at, args = next(i for i in range(at + 1, len(mro)) if mro[i].name == recv.id), args[1:]  # Base.__init__(self, ...)
+            else:
+                raise Unrecognised(f"{c.name}.__init__: `{short(up, 40)}`")
+            built = ast.Call(func=built.func, args=args, keywords=[ast.keyword(arg=k.arg, value=source.inline_node(k.value, sub)) for k in up.keywords])
+        raise Unrecognised(f"constructor chain of {kls.name}")
+
+    behaviours = {}
+
+    def behaviour(ctor, on):
+        """what is wrong (list of texts) with a wrapper built with these settings when the task sets no retry parameter and the documentation says retry-until-success is `on` by default"""
+        k = (repr(sorted(ctor.items())), on)
+        if k in behaviours:
+            return behaviours[k]
+        D, bad = doc_defaults, []
+        wait = [[D["retry-wait-period"]]]
+
+        def sleeps(o):
+            return [s_[0] for s_ in o.sleeps]
+
+        w = world({}, ctor)
+        if on:
+            if not w.unbounded:
+                bad.append(f"a task that sets no retry parameter makes at most {w.n} attempt(s); documented: it waits until success by default")
+            else:
+                o = attempt(w, 0, ("return", failed()), probe=True)
+                if o.kind != "retry" or sleeps(o) != wait:
+                    bad.append(f"no retry parameter set: an unsuccessful result {o.text()} (sleeps {sleeps(o)}); documented: another attempt after {D['retry-wait-period']} s, until success")
+            w0 = world({"retry-until-success": False}, ctor)
+            if w0.unbounded or w0.n != D["retries"] + 1:
+                bad.append(f"retry-until-success: false makes {'unbounded' if w0.unbounded else w0.n} attempt(s); documented: {D['retries'] + 1}")
+        else:
+            if w.unbounded or w.n != D["retries"] + 1:
+                bad.append(f"a task that sets no retry parameter makes {'attempts without bound' if w.unbounded else f'{w.n} attempt(s)'}; documented: retry-until-success defaults to false, "
+                           f"retries to {D['retries']} ({D['retries'] + 1} attempt(s))")
+        w1 = world({"retries": 1}, ctor)
+        if w1.unbounded or w1.n >= 2:
+            o = attempt(w1, 0, exc_event(CE[1], CE[2]), probe=True)
+            want = "retry" if D["retry-on-timeout"] else "raise"
+            if o.kind != want or (want == "retry" and sleeps(o) != wait):
+                bad.append(f"retries: 1 and nothing else set: a connection error at the first attempt {o.text()} (sleeps {sleeps(o)}); documented: retry-on-timeout defaults to "
+                           f"{D['retry-on-timeout']}, retry-wait-period to {D['retry-wait-period']}")
+            o = attempt(w1, 0, ("return", failed()), probe=True)
+            want = "retry" if (on or D["retry-on-error"]) else "return"
+            if o.kind != want:
+                bad.append(f"retries: 1 and nothing else set: an unsuccessful result at the first attempt {o.text()}; documented: "
+                           + ("retry-until-success is on by default and forces retry-on-error" if on else f"retry-on-error defaults to {D['retry-on-error']}"))
+        behaviours[k] = bad
+        return bad
+
+    def named_elsewhere():
+        """places of the package OUTSIDE the wrapper's own code that name the retry-until-success key (a parameter source / a caller that supplies a default of its own): with one of them the
+        default that applies to an operation is not decided by the registration alone"""
+        own = {id(n) for f in closure for n in ast.walk(f)}
+        out = []
+        for p in repo.package_files():
+            if "retry-until-success" not in repo.text(p):
+                continue
+            m = repo.module(p)
+            docstrings = {id(st.value) for n in ast.walk(m.tree) if isinstance(n, (ast.Module, ast.ClassDef) + FUNC_TYPES) for st in n.body[:1]
+                          if isinstance(st, ast.Expr) and isinstance(st.value, ast.Constant)}
+            for n in ast.walk(m.tree):
+                if not (isinstance(n, ast.Constant) and isinstance(n.value, str) and "retry-until-success" in n.value) or id(n) in own or id(n) in docstrings:
+                    continue
+                par = source.parent(n)
+                # a READ of the key supplies nothing: params.get(key[, d]) / params[key] / key in params
+                if isinstance(par, ast.Call) and isinstance(par.func, ast.Attribute) and par.func.attr == "get" and par.args and par.args[0] is n:
+                    continue
+                if isinstance(par, ast.Subscript) and par.slice is n and isinstance(par.ctx, ast.Load):
+                    continue
+                if isinstance(par, ast.Compare) and par.left is n and len(par.ops) == 1 and isinstance(par.ops[0], (ast.In, ast.NotIn)):
+                    continue
+                if isinstance(par, ast.Expr) or is_logging_stmt(source.enclosing_stmt(n)):
+                    continue
+                out.append(n)
+        return out
+
+    elsewhere = None
+    for op in sorted(regs):
+        v, site = regs[op]
+        if wrapping(v) != "retry":
+            continue
+        on = documented_until_success(op) if section_of(op) is not None else doc_defaults["retry-until-success"]
+        if on is None:
+            chk.unknown("O16.7", f"`{op}`: what its documentation section says about ``retry-until-success`` is not recognised (neither `defaults to` nor `set ... to ``false`` to disable`)", site)
+            continue
+        try:
+            ctor = ctor_settings(v)
+            bad = behaviour(ctor, on)
+        except Unrecognised as e:
+            chk.unknown("O16.7", f"`{op}`: how the registered wrapper is built is not recognised ({e})", site)
+            continue
+        except CannotEval as e:
+            chk.unknown("O16.7", f"`{op}`: the registered wrapper is not evaluable on a task without retry parameters ({e})", site)
+            continue
+        if bad:
+            if elsewhere is None:
+                elsewhere = named_elsewhere()
+            if elsewhere:
+                chk.unknown("O16.7", f"`{op}`: {bad[0]} - but {source.loc(elsewhere[0])} names the setting outside the wrapper: where the default of this operation comes from is not recognised", site)
+                continue
+        chk.ob("O16.7", f"`{op}`: without retry parameters the registered wrapper applies the documented defaults (retry-until-success {'on' if on else 'off'} by default)", not bad, site,
+               f"registered runner: {short(v, 70)}" + (f" built with {ctor}" if ctor else "") + ("; " + "; ".join(bad[:2]) if bad else ""),
+               key=f"{_R}:register_default_runners:retry-defaults:{op}")
+
 
 from sa.selftest import V  # noqa: E402
 
@@ -1637,6 +1882,8 @@ _POLICY = ("class RetryPolicy:\n    def __init__(self, params, unbounded_by_defa
            "    @property\n    def limit(self):\n        return sys.maxsize if self._unbounded else self._retries + 1\n\n"
            "    def is_last(self, attempt):\n        return attempt + 1 == self.limit\n\n\n")
 _CLS = "class Retry(Runner, Delegator):\n"
+_REG_GAS = "    register_runner(track.OperationType.GetAsyncSearch, Retry(GetAsyncSearch(), retry_until_success=True), async_runner=True)\n"
+_REG_CH = "    register_runner(track.OperationType.ClusterHealth, Retry(ClusterHealth()), async_runner=True)\n"
 _PS_OLD = ("        p = {}\n        # ensure we pass all parameters...\n        p.update(self._params)\n        p.update(\n            {\n                \"indices\": self.index_definitions,\n"
            "                \"request-params\": self.request_params,\n            }")
 _NT_UNPACK = "        max_attempts, sleep_time, retry_on_timeout, retry_on_error = _retry_plan(params, self.retry_until_success)\n"
@@ -1911,4 +2158,33 @@ VARIANTS = [
      V("", "break", "esrally/track/params.py", "    def _client_params(self):\n", "    def _task_params(self):\n        return dict(self._client_params())\n\n    def _client_params(self):\n", "O16.6")],
     V("parameter source builds on the base class's params() through super()", "keep", "esrally/track/params.py", _PS_OLD,
       _PS_OLD.replace("        p = {}\n        # ensure we pass all parameters...\n        p.update(self._params)\n", "        p = dict(super().params())\n")),
+    # ---- strengthening round 5 (O16.7): the defaults that apply to a registered operation are the documented ones, decided on the wrapper as the registration builds it
+    V("seed m15: get-async-search registered without its documented retry-until-success default", "break", _R, _REG_GAS, _REG_GAS.replace("Retry(GetAsyncSearch(), retry_until_success=True)", "Retry(GetAsyncSearch())"), "O16.7"),
+    V("get-async-search: the retry-until-success default is switched off positionally", "break", _R, _REG_GAS, _REG_GAS.replace("Retry(GetAsyncSearch(), retry_until_success=True)", "Retry(GetAsyncSearch(), False)"), "O16.7"),
+    V("cluster-health registered with retry-until-success on although its documentation states the general default", "break", _R, _REG_CH, _REG_CH.replace("Retry(ClusterHealth())", "Retry(ClusterHealth(), retry_until_success=True)"), "O16.7"),
+    V("get-async-search built by a local factory function that forgets the retry-until-success default", "break", _R, _REG_GAS,
+      "    def until_success(runner):\n        return Retry(runner)\n\n" + _REG_GAS.replace("Retry(GetAsyncSearch(), retry_until_success=True)", "until_success(GetAsyncSearch())"), "O16.7"),
+    V("the constructor's retry-until-success default flipped: every wrapped operation polls without bound", "break", _R, "    def __init__(self, delegate, retry_until_success=False):", "    def __init__(self, delegate, retry_until_success=True):", "O16."),
+    [V("per-wrapper default for retry-on-error, switched on for cluster-health where it is registered", "break", _R, "    def __init__(self, delegate, retry_until_success=False):\n        super().__init__(delegate=delegate)\n",
+       "    def __init__(self, delegate, retry_until_success=False, retry_on_error=False):\n        super().__init__(delegate=delegate)\n        self.retry_on_error = retry_on_error\n", "O16.7"),
+     V("", "break", _R, "            retry_on_error = params.get(\"retry-on-error\", False)\n", "            retry_on_error = params.get(\"retry-on-error\", self.retry_on_error)\n", "O16.7"),
+     V("", "break", _R, _REG_CH, _REG_CH.replace("Retry(ClusterHealth())", "Retry(ClusterHealth(), retry_on_error=True)"), "O16.7")],
+    [V("per-wrapper default for retry-on-error, left at the documented value everywhere", "keep", _R, "    def __init__(self, delegate, retry_until_success=False):\n        super().__init__(delegate=delegate)\n",
+       "    def __init__(self, delegate, retry_until_success=False, retry_on_error=False):\n        super().__init__(delegate=delegate)\n        self.retry_on_error = retry_on_error\n"),
+     V("", "keep", _R, "            retry_on_error = params.get(\"retry-on-error\", False)\n", "            retry_on_error = params.get(\"retry-on-error\", self.retry_on_error)\n"),
+     V("", "keep", _R, _REG_CH, _REG_CH.replace("Retry(ClusterHealth())", "Retry(ClusterHealth(), retry_on_error=False)"))],
+    V("get-async-search: the retry-until-success default passed positionally", "keep", _R, _REG_GAS, _REG_GAS.replace("Retry(GetAsyncSearch(), retry_until_success=True)", "Retry(GetAsyncSearch(), True)")),
+    V("get-async-search built by a local factory function that sets the retry-until-success default", "keep", _R, _REG_GAS,
+      "    def until_success(runner):\n        return Retry(runner, retry_until_success=True)\n\n" + _REG_GAS.replace("Retry(GetAsyncSearch(), retry_until_success=True)", "until_success(GetAsyncSearch())")),
+    [V("get-async-search built through functools.partial of the wrapper class with the retry-until-success default", "keep", _R, _REG_GAS,
+       "    until_success = functools.partial(Retry, retry_until_success=True)\n" + _REG_GAS.replace("Retry(GetAsyncSearch(), retry_until_success=True)", "until_success(GetAsyncSearch())")),
+     V("", "keep", _R, "import contextvars\n", "import contextvars\nimport functools\n")],
+    V("cluster-health: the general retry-until-success default spelled out where it is registered", "keep", _R, _REG_CH, _REG_CH.replace("Retry(ClusterHealth())", "Retry(ClusterHealth(), retry_until_success=False)")),
+    [V("get-async-search registered through a subclass of the wrapper whose constructor switches the retry-until-success default on", "keep", _R, _REG_GAS, _REG_GAS.replace("Retry(GetAsyncSearch(), retry_until_success=True)", "UntilSuccess(GetAsyncSearch())")),
+     V("", "keep", _R, _REPR, _REPR + "\n\n\nclass UntilSuccess(Retry):\n    def __init__(self, delegate):\n        super().__init__(delegate, retry_until_success=True)")],
+    [V("get-async-search registered through a subclass of the wrapper whose constructor hands on the general default", "break", _R, _REG_GAS, _REG_GAS.replace("Retry(GetAsyncSearch(), retry_until_success=True)", "UntilSuccess(GetAsyncSearch())"), "O16.7"),
+     V("", "break", _R, _REPR, _REPR + "\n\n\nclass UntilSuccess(Retry):\n    def __init__(self, delegate, retry_until_success=False):\n        super().__init__(delegate, retry_until_success)")],
+    V("get-async-search registered from a table of (operation type, runner, waits until success)", "keep", _R, _REG_GAS,
+      "    for operation_type, polled_runner, until_success in [(track.OperationType.GetAsyncSearch, GetAsyncSearch(), True)]:\n"
+      "        register_runner(operation_type, Retry(polled_runner, retry_until_success=until_success), async_runner=True)\n"),
 ]
